@@ -198,6 +198,70 @@ def policy_lattice(rc):
     rc.coverage['policy_combinations'] = n
 
 
+def error_rendering(rc):
+    """The users of styling named by the property: rendered parse errors obey the colour policy they are
+    given, whatever the environment says, and colouring them does not alter their text."""
+    import tatsu
+    from tatsu.exceptions import FailedParse
+    from tatsu.ztyle.style import Color
+
+    class FakeOut:
+        def __init__(self, tty):
+            self.tty = tty
+
+        def isatty(self):
+            return self.tty
+
+        def write(self, *_a):
+            return 0
+
+        def flush(self):
+            pass
+
+    model = tatsu.compile("start: 'a' item $ ;\n\nitem: 'b' | 'c' ;\n")
+    errs = []
+    for text in ('a x', 'a b b', '', 'a\n\n  q'):
+        try:
+            model.parse(text)
+        except FailedParse as e:
+            errs.append((text, e))
+    saved_env = {k: os.environ.get(k) for k in ('NO_COLOR', 'FORCE_COLOR')}
+    saved = (sys.stdout, sys.stderr)
+    n = 0
+    try:
+        for text, e in errs:
+            for no_color, force_color, out_tty, err_tty in itertools.product((None, '1'), (None, '1'), (True, False), (True, False)):
+                for k, v in (('NO_COLOR', no_color), ('FORCE_COLOR', force_color)):
+                    if v is None:
+                        os.environ.pop(k, None)
+                    else:
+                        os.environ[k] = v
+                sys.stdout, sys.stderr = FakeOut(out_tty), FakeOut(err_tty)
+                try:
+                    plain_txt = e.render(color=Color.never())
+                    coloured = e.render(color=Color.always())
+                finally:
+                    sys.stdout, sys.stderr = saved
+                n += 1
+                rc.add('evaluations', 2)
+                rc.add('nontrivial')
+                env = dict(NO_COLOR=no_color, FORCE_COLOR=force_color, stdout_tty=out_tty, stderr_tty=err_tty)
+                if '\x1b' in plain_txt:
+                    rc.violation('error-rendering/escape-with-colour-disabled', input=text, env=env, got=plain_txt[:300])
+                if strip(coloured) != strip(plain_txt):
+                    rc.violation('error-rendering/colour-alters-text', input=text, env=env, coloured=strip(coloured)[:300], plain=plain_txt[:300])
+                if '\x1b' not in coloured:
+                    rc.violation('error-rendering/no-escape-with-colour-forced', input=text, env=env)
+    finally:
+        sys.stdout, sys.stderr = saved
+        for k, v in saved_env.items():
+            if v is None:
+                os.environ.pop(k, None)
+            else:
+                os.environ[k] = v
+    rc.coverage['error_renderings'] = n
+
+
 def method_bfs(rc, depth):
     """States = attribute tuples; transitions = chainable modifier methods."""
     from tatsu.ztyle.style import Color, Style, RGB
@@ -242,10 +306,11 @@ def run(rc):
     rc.pmap(shard_styles, styles)
     rc.pmap(shard_texts, texts(3 if quick else 4))
     policy_lattice(rc)
+    error_rendering(rc)
     method_bfs(rc, 4 if quick else 5)
     c = rc.total.counts
     rc.rule = ('(a) styles = fg,bg in {none,0,7,8,15,16,255,RGB} x all 256 modifier subsets x 2 texts x 3 specs; (b) all texts of length <= ' + ('2' if quick else '3') + ' over {a,space,{,},:,e-acute,CJK,combining,backslash,e} + longer ones x 8 format specs x 7 styles; '
-               'each through str/format/f-string/.fmt()/call/apply/len/repr round trip with colour on and off; (c) 54 colour-policy combinations '
+               'each through str/format/f-string/.fmt()/call/apply/len/repr round trip with colour on and off; (c) 54 colour-policy combinations and rendered parse errors under explicit policies x environment x tty '
                '(explicit x NO_COLOR x FORCE_COLOR x tty); (d) BFS over chainable modifier methods; non-trivial = styled or formatted case')
     rc.coverage.update({'states': c.get('states', 0), 'transitions': c.get('transitions', 0),
                         'traces_validated_against_impl': c.get('evaluations', 0)})
